@@ -25,6 +25,65 @@ BAD_RI = 4000           # rule index of a node whose rule is not one of ProgramI
 
 
 # ------------------------------------------------------------------ generator
+def lit_vars(l):
+    acc = set()
+    if l[0] in ("atom", "neg"):
+        for t in l[1]["args"]:
+            dc.term_vars(t, acc)
+    else:
+        dc.term_vars(l[1], acc), dc.term_vars(l[2], acc)
+    return acc
+
+
+def bound_before(body, j):
+    """variables bound by body[:j]: arguments of positive atoms, and a lone variable on one side
+    of an equality whose other side is already bound"""
+    b = set()
+    for l in body[:j]:
+        if l[0] == "atom":
+            b |= lit_vars(l)
+        elif l[0] == "eq":
+            for x, y in ((l[1], l[2]), (l[2], l[1])):
+                acc = set()
+                dc.term_vars(y, acc)
+                if x[0] == "var" and x[1] not in b and acc <= b:
+                    b.add(x[1])
+                    break
+    return b
+
+
+def hoist_tests(r, body, prob=0.6):
+    """Moves each literal that is not a positive atom (negated atom, !=, =) with probability
+    `prob` to a random earlier position at which the variables it reads are already bound, never
+    in front of the first literal: a test may then stand BEFORE a (recursive) positive atom
+    (seeded C15-2: engine code that stops scanning a body at the first non-atom). The clause
+    stays safe in its written order, so analysis.RewriteClause keeps the order."""
+    body = list(body)
+    for i in range(len(body)):
+        l = body[i]
+        if l[0] == "atom" or i < 2 or r.random() >= prob:
+            continue
+        need = lit_vars(l) & bound_before(body, i)
+        lo = i
+        while lo > 1 and need <= bound_before(body, lo - 1):
+            lo -= 1
+        j = r.randint(lo, i)
+        if j < i:
+            body.insert(j, body.pop(i))
+    return body
+
+
+def test_before_atom(c):
+    """the clause has a negated atom / = / != in front of a positive atom"""
+    seen = False
+    for l in c["body"]:
+        if l[0] != "atom":
+            seen = True
+        elif seen:
+            return True
+    return False
+
+
 class Gen15:
     """Random stratifiable programs inside the property's quantifier: atoms, negation of
     lower layers, = and != (no built-in predicate atoms: N17; no function application in
@@ -68,9 +127,20 @@ class Gen15:
             cl.append(clause(atom(t, X, Z), [["atom", atom(t, X, Y)], ["atom", atom(e, Y, Z)]]))
         else:
             cl.append(clause(atom(t, X, Z), [["atom", atom(e, X, Y)], ["atom", atom(t, Y, Z)]]))
-        if r.random() < 0.3:
-            cl[1]["body"].append(["ineq", X, Z])
-            self.feats.add("ineq")
+        if r.random() < 0.45:
+            # a test, placed at the end or between the two atoms (in front of the recursive one)
+            x = r.random()
+            if x < 0.5:
+                a, b = r.choice([(X, Z), (X, Y), (X, Y), (Y, X)])
+                cl[1]["body"].append(["ineq", a, b])
+                self.feats.add("ineq")
+            elif x < 0.8:
+                cl[1]["body"].append(["neg", atom(self.u, r.choice([X, Y]))])
+                self.feats.add("neg")
+            else:
+                cl[1]["body"].append(["eq", r.choice([X, Y]), cst(self.val("N"))])
+                self.feats.add("eq-test")
+            cl[1]["body"] = hoist_tests(r, cl[1]["body"], 0.7)
         self.feats.add("recursive")
         return [t], cl
 
@@ -98,32 +168,55 @@ class Gen15:
         return preds, cl
 
     def t_mutual(self, lower):
+        r = self.r
         z = self.pick(lower, "N") or self.u
         s = self.pick(lower, "NN") or self.e
         ev, od = self.new_pred("N"), self.new_pred("N")
         X, Y = var(1), var(2)
-        cl = [clause(atom(ev, X), [["atom", atom(z, X)]]),
-              clause(atom(od, Y), [["atom", atom(ev, X)], ["atom", atom(s, X, Y)]]),
-              clause(atom(ev, Y), [["atom", atom(od, X)], ["atom", atom(s, X, Y)]])]
+
+        def step(h, b):
+            body = [["atom", atom(b, X)], ["atom", atom(s, X, Y)]]
+            if r.random() < 0.4:
+                body.reverse()
+            if r.random() < 0.35:
+                if r.random() < 0.6:
+                    body.append(["ineq", X, Y])
+                    self.feats.add("ineq")
+                else:
+                    body.append(["neg", atom(z, Y)])
+                    self.feats.add("neg")
+                body = hoist_tests(r, body, 0.7)
+            return clause(atom(h, Y), body)
+        cl = [clause(atom(ev, X), [["atom", atom(z, X)]]), step(od, ev), step(ev, od)]
         preds = [ev, od]
-        if self.r.random() < 0.5:
+        if r.random() < 0.5:
             both = self.new_pred("N")
             cl.append(clause(atom(both, X), [["atom", atom(ev, X)], ["atom", atom(od, X)]]))
             preds.append(both)
-        self.r.shuffle(cl)
+        r.shuffle(cl)
         self.feats.update(["recursive", "mutual"])
         return preds, cl
 
     def t_counter(self, lower):
-        """recursion through an equality that binds a fresh variable (N16 shape)"""
+        """recursion through an equality that binds a fresh variable (N16 shape); the equality
+        after the recursive atom (c(Y) :- c(X), Y = X + k, d(Y)) or in front of it
+        (c(Y) :- d(Y), X = Y - k, c(X))"""
         r = self.r
         z = self.pick(lower, "N") or self.u
         c = self.new_pred("N")
         X, Y = var(1), var(2)
-        step = app("plus", X, cst(num(r.choice([1, 1, 2]))))
-        eq = ["eq", Y, step] if r.random() < 0.7 else ["eq", step, Y]
-        cl = [clause(atom(c, X), [["atom", atom(z, X)]]),
-              clause(atom(c, Y), [["atom", atom(c, X)], eq, ["atom", atom(self.d, Y)]])]
+        k = cst(num(r.choice([1, 1, 2])))
+        if r.random() < 0.6:
+            step = app("plus", X, k)
+            eq = ["eq", Y, step] if r.random() < 0.7 else ["eq", step, Y]
+            rec = clause(atom(c, Y), [["atom", atom(c, X)], eq, ["atom", atom(self.d, Y)]])
+        else:
+            step = app("minus", Y, k)
+            eq = ["eq", X, step] if r.random() < 0.7 else ["eq", step, X]
+            rec = clause(atom(c, Y), [["atom", atom(self.d, Y)], eq, ["atom", atom(c, X)]])
+        cl = [clause(atom(c, X), [["atom", atom(z, X)]]), rec]
+        if r.random() < 0.3:
+            cl.reverse()
         self.feats.update(["recursive", "eq-bind"])
         return [c], cl
 
@@ -219,7 +312,7 @@ class Gen15:
         for ty in self.sig[h]:
             bs = bound(ty)
             hargs.append(var(r.choice(bs)) if bs and r.random() < 0.88 else cst(self.val(ty)))
-        return clause(atom(h, *hargs), body)
+        return clause(atom(h, *hargs), hoist_tests(r, body, 0.5))
 
     def t_let(self, lower):
         r = self.r
@@ -336,6 +429,162 @@ def gen_program(rng, transforms=False):
         p = Gen15(rng, transforms).program()
         if p is not None:
             return p
+
+
+# ------------------------------------------------------------------ cyclic programs (added after seeding, C15-1 / C15-2)
+def cyclic_program(r):
+    """A ring of 2-4 mutually recursive predicates p1 :- p2, p2 :- p3, .., pn :- p1 with chords
+    (self loops included), one or two entry rules p_i :- p0 (or an initial fact of a ring
+    predicate), goal rules over two or three ring members in any order, optionally a guard
+    with a test IN FRONT of the recursive atom (p_i(X) :- dom(X), X != 9, p_j(X)) and rules that
+    walk along a cyclic graph (p_i(Y) :- p_j(X), step(X, Y)); ALL clauses shuffled: every
+    relative order of recursive and base rules, every depth of the cut goal on the proof stack
+    and every reuse of a ring member after the ring's entry was explained can occur."""
+    n = r.choice([2, 3, 3, 3, 4, 4])
+    X, Y = var(1), var(2)
+    ring = list(range(1, n + 1))
+    dom, blk, step, base2 = n + 1, n + 2, n + 3, n + 4
+    nxt = n + 5
+    feats = {"recursive", "mutual", "cyclic", "ring%d" % n}
+    walk = r.random() < 0.3
+    used = set()
+
+    def edge(h, b):
+        k = r.random()
+        if walk and k < 0.45:
+            body = [["atom", atom(b, X)], ["atom", atom(step, X, Y)]]
+            if r.random() < 0.5:
+                body.reverse()
+            hv = Y
+            feats.add("walk")
+            used.add(step)
+        elif k < 0.7 or walk:
+            return clause(atom(h, X), [["atom", atom(b, X)]])
+        else:
+            body, hv = [["atom", atom(dom, X)], ["atom", atom(b, X)]], X
+            used.add(dom)
+        if r.random() < 0.7:
+            x = r.random()
+            v = X if hv is X else r.choice([X, Y])
+            if x < 0.4:
+                body.append(["ineq", v, cst(num(9))] if hv is X or r.random() < 0.5 else ["ineq", X, Y])
+            elif x < 0.8:
+                body.append(["neg", atom(blk, v)])
+                used.add(blk)
+            else:
+                body.append(["eq", v, v] if r.random() < 0.5 else ["eq", var(3), v])
+            body = hoist_tests(r, body, 0.8)
+            feats.add("guard-test")
+        return clause(atom(h, hv), body)
+    cl, seen = [], set()
+
+    def add(c):
+        t = dc.clause_text(c)
+        if t not in seen:
+            seen.add(t)
+            cl.append(c)
+    for i in range(n):
+        add(edge(ring[i], ring[(i + 1) % n]))
+    for _ in range(r.choice([0, 0, 1, 1, 2])):
+        add(edge(r.choice(ring), r.choice(ring)))
+        feats.add("chord")
+    init = [fact(0, num(1))] + ([fact(0, num(2))] if r.random() < 0.4 else [])
+    entries = r.sample(ring, r.choice([1, 1, 2]))
+    idb_init = r.random() < 0.12
+    for k, h in enumerate(entries):
+        if idb_init and k == 0:
+            # an initial fact of a ring predicate as the only way in (F9b inside a cycle; recorded mode: N80)
+            init.append(fact(h, num(1)))
+            feats.update(["idb-init", "idb-init-recursive"])
+        elif k == 1 and r.random() < 0.5:
+            add(clause(atom(h, X), [["atom", atom(base2, X)]]))
+            init.append(fact(base2, num(r.choice([1, 2, 3]))))
+        else:
+            add(clause(atom(h, X), [["atom", atom(0, X)]]))
+    for _ in range(r.choice([1, 1, 2])):
+        g = nxt
+        nxt += 1
+        k = r.choice([2, 2, 2, 3])
+        ms = r.sample(ring, k) if k <= n and r.random() < 0.8 else [r.choice(ring) for _ in range(k)]
+        body = [["atom", atom(m, X)] for m in ms]
+        if r.random() < 0.25:
+            body.append(["ineq", X, cst(num(9))] if r.random() < 0.5 else ["neg", atom(blk, X)])
+            used.update([blk] if body[-1][0] == "neg" else [])
+            body = hoist_tests(r, body, 0.8)
+            feats.add("guard-test")
+        add(clause(atom(g, X), body))
+    r.shuffle(cl)
+    if dom in used:
+        init += [fact(dom, num(v)) for v in (1, 2, 3)]
+    if blk in used:
+        init.append(fact(blk, num(r.choice([2, 3, 7]))))
+    if step in used:
+        g = r.choice([[(1, 2), (2, 1)], [(1, 2), (2, 3), (3, 1)], [(1, 1), (1, 2), (2, 1)], [(1, 2), (2, 3), (3, 2)]])
+        init += [fact(step, num(a), num(b)) for a, b in g]
+    r.shuffle(init)
+    return {"clauses": cl, "layers": dc.stratify(cl), "init": init, "pre": [], "features": sorted(feats),
+            "transforms": False}
+
+
+def ring_orders(n):
+    """EVERY clause order of the ring program over n predicates with one entry: p1 :- p2, ..,
+    pn :- p1, p1 :- p0, and a goal rule g :- p_i, p_j for every ordered pair i != j."""
+    import itertools
+    X = var(1)
+    ring = [clause(atom(i, X), [["atom", atom(i % n + 1, X)]]) for i in range(1, n + 1)]
+    base = clause(atom(1, X), [["atom", atom(0, X)]])
+    for i in range(1, n + 1):
+        for j in range(1, n + 1):
+            if i == j:
+                continue
+            goal = clause(atom(n + 1, X), [["atom", atom(i, X)], ["atom", atom(j, X)]])
+            for perm in itertools.permutations(ring + [base, goal]):
+                cl = list(perm)
+                yield {"clauses": cl, "layers": dc.stratify(cl), "init": [fact(0, num(1))], "pre": [],
+                       "features": ["exhaustive", "cyclic", "ring%d" % n, "all-orders"], "transforms": False}
+
+
+def ring_structures():
+    """Every program over three ring predicates p1, p2, p3 in which each predicate has one or two
+    rules (ordered) with a single body atom out of p0 (base), p1, p2, p3, the dependency graph has a
+    cycle through at least two predicates, and a goal rule g :- p_i, p_j (i != j, both orders);
+    clauses grouped by head (the relative order of the rules of one predicate is what Explain sees)."""
+    import itertools
+    X = var(1)
+    opts = [[b] for b in range(4)] + [[a, b] for a in range(4) for b in range(4) if a != b]
+    for r1, r2, r3 in itertools.product(opts, repeat=3):
+        rules = {1: r1, 2: r2, 3: r3}
+        cl = [clause(atom(h, X), [["atom", atom(b, X)]]) for h in (1, 2, 3) for b in rules[h]]
+        comps = dc.stratify(cl)
+        if not any(len(c) > 1 for c in comps) or not any(0 in rules[h] for h in rules):
+            continue
+        for i, j in ((1, 2), (2, 1), (1, 3), (3, 1), (2, 3), (3, 2)):
+            c2 = cl + [clause(atom(4, X), [["atom", atom(i, X)], ["atom", atom(j, X)]])]
+            yield {"clauses": c2, "layers": dc.stratify(c2), "init": [fact(0, num(1))], "pre": [],
+                   "features": ["exhaustive", "cyclic", "ring-structure"], "transforms": False}
+
+
+def guarded_recursion():
+    """Every recursive rule p2(..) :- A, T, B with a test T between two positive atoms: A binds X and
+    Y (p0(X,Y) | p0(Y,X)), T out of X != Y, X = Y, X != 3, Y = 2, !p1(X), !p1(Y), !p4(Y), Z = Y,
+    B the recursive atom p2(Y) | p2(X) (or p2(Z) after Z = Y), head p2(X) | p2(Y); beside the seed
+    rule p2(X) :- p1(X), in both clause orders; a chain with a loop as base facts so that facts are
+    first derived in several incremental rounds."""
+    X, Y, Z = var(1), var(2), var(3)
+    tests = [["ineq", X, Y], ["eq", X, Y], ["ineq", X, cst(num(3))], ["eq", Y, cst(num(2))], ["neg", atom(1, X)],
+             ["neg", atom(1, Y)], ["neg", atom(4, Y)], ["eq", Z, Y], ["eq", Y, Z]]
+    init = [fact(0, num(a), num(b)) for a, b in ((1, 2), (2, 3), (3, 4), (4, 5), (5, 3), (2, 2))] + \
+        [fact(1, num(1)), fact(1, num(5)), fact(4, num(4))]
+    seed = clause(atom(2, X), [["atom", atom(1, X)]])
+    for a in (["atom", atom(0, X, Y)], ["atom", atom(0, Y, X)]):
+        for t in tests:
+            binds_z = t[0] == "eq" and Z in (t[1], t[2])
+            for b in ([Z] if binds_z else [X, Y]):
+                for hv in (X, Y):
+                    rec = clause(atom(2, hv), [a, t, ["atom", atom(2, b)]])
+                    for cl in ([seed, rec], [rec, seed]):
+                        yield {"clauses": cl, "layers": dc.stratify(cl), "init": init, "pre": [],
+                               "features": ["exhaustive", "recursive", "guarded-recursion"], "transforms": False}
 
 
 # ------------------------------------------------------------------ exhaustive block
